@@ -302,7 +302,7 @@ func init() {
 		for _, c := range a[0].L {
 			chunks = append(chunks, c.B)
 		}
-		n, err := cw.ReadFrom(&chunkReader{chunks: chunks, fail: a[3].Int() != 0})
+		n, err := cw.ReadFrom(&chunkReader{chunks: chunks, fail: a[3].Int() == 1, eofWithData: a[3].Int() == 2})
 		return L(B(fw.acc), Zi(n), Zi(cw.Written), Bool(err == nil))
 	})
 	regOp("cw_writes", func(a []Sx) Sx {
@@ -321,8 +321,9 @@ func init() {
 
 // chunkReader delivers one chunk per Read call (chunks are at most a few KiB) and then io.EOF or an error
 type chunkReader struct {
-	chunks [][]byte
-	fail   bool
+	chunks      [][]byte
+	fail        bool
+	eofWithData bool // the last chunk is returned together with io.EOF, as io.Reader allows
 }
 
 func (c *chunkReader) Read(p []byte) (int, error) {
@@ -337,5 +338,9 @@ func (c *chunkReader) Read(p []byte) (int, error) {
 	}
 	n := copy(p, c.chunks[0])
 	c.chunks[0] = c.chunks[0][n:]
+	if c.eofWithData && !c.fail && len(c.chunks) == 1 && len(c.chunks[0]) == 0 {
+		c.chunks = nil
+		return n, io.EOF
+	}
 	return n, nil
 }
